@@ -25,6 +25,7 @@ type Sess struct {
 
 	// while capturing, operations are recorded instead of written (concurrent rounds emit them afterwards)
 	mute           bool // dry runs: nothing is written to the trace
+	everEnabled    bool // versioning was enabled at some point: listed version ids are real ids from then on
 	wireNullMarker bool // ListVersions: send version-id-marker=null where the trace says "no version id marker"
 	capMu          sync.Mutex
 	capturing      bool
@@ -394,6 +395,9 @@ func (s *Sess) SetVersioning(b string, enable bool) Resp {
 	body := `<VersioningConfiguration xmlns="http://s3.amazonaws.com/doc/2006-03-01/"><Status>` + status + `</Status></VersioningConfiguration>`
 	r := do(s.h, Req{Method: "PUT", Path: "/" + pathEscape(b) + "?versioning", Body: []byte(body)})
 	s.emitOp("ver", []string{hs(b), boolField(enable)}, obsT{r: r})
+	if enable && r.Status == 200 {
+		s.everEnabled = true
+	}
 	return r
 }
 
